@@ -5,6 +5,14 @@ package main
 // under "checks" in MANIFEST.json; a registered but unfinished check is listed under
 // not_applicable ("not claimed yet") and can still be run by hand.
 var claimed = map[string]bool{
+	"C01": true,
 	"C03": true,
+	"C05": true,
 	"C06": true,
+	"C09": true,
+	"C10": true,
+	"C16": true,
+	"C17": true,
+	"C18": true,
+	"C19": true,
 }
